@@ -102,6 +102,17 @@ def get_ancestor_in_block(op: Operation, block: Block | None) -> Operation:
     return op
 
 
+def is_only_reference_to_global(get_global_op: memref.GetGlobalOp) -> bool:
+    """
+    Check if this is the only memref.get_global operation that refers to its memref.global.
+    """
+    module_op = get_global_op.get_toplevel_object()
+    for op in module_op.walk():
+        if isinstance(op, memref.GetGlobalOp) and op is not get_global_op and op.name_ == get_global_op.name_:
+            return False
+    return True
+
+
 def get_source_operand(op: MemorySpaceCastOp | LayoutCast) -> Operand:
     """
     Find the source of a chain of layout / memory space casts.
@@ -172,6 +183,8 @@ class ApplyLayoutCastSubviewGlobal(RewritePattern):
             return
         # global op can only have one use, this subview:
         if subview.source.uses.get_length() != 1:
+            return
+        if not is_only_reference_to_global(const_source):
             return
         global_op = SymbolTable.lookup_symbol(op, const_source.name_)
         if not isinstance(global_op, memref.GlobalOp):
@@ -379,6 +392,10 @@ class ApplyLayoutCastMemrefGlobal(RewritePattern):
             return
         # check if it is used in a terminator operation
         if any(use.operation.has_trait(IsTerminator) for use in const_source.memref.uses):
+            return
+        # the global is replaced by the transformed global: this is only possible
+        # if nothing else uses the global (with its current layout)
+        if const_source.memref.uses.get_length() != 1 or not is_only_reference_to_global(const_source):
             return
         global_op = SymbolTable.lookup_symbol(op, const_source.name_)
         if not isinstance(global_op, memref.GlobalOp):
